@@ -509,6 +509,10 @@ func c05BoolOps(c *Ctx, rule string) {
 		be := ast.Unparen(res.Results[0]).(*ast.BinaryExpr)
 		l, lok := ast.Unparen(be.X).(*ast.Ident)
 		r, rok := ast.Unparen(be.Y).(*ast.Ident)
+		if be.Op == spec.op && (!lok || !rok || sideOf(f, l) == 0 || sideOf(f, r) == 0) {
+			c.Undecided(rule, key, "%s returns a combination with %s, but which operand each side of it holds is not decided (the values reach the return through copies the side analysis does not follow)", spec.fn, spec.op.String())
+			continue
+		}
 		okOp := be.Op == spec.op && lok && rok && sideOf(f, l)+sideOf(f, r) == 3
 		c.Check(okOp, rule, key, res.Pos(), "returns lhs "+spec.op.String()+" rhs", spec.fn+" combines its operands with "+be.Op.String()+" instead of "+spec.op.String())
 		// both operands evaluated on every path to every return that is not an evaluation error of the FIRST operand
